@@ -29,6 +29,9 @@ HAND = [
     {"choice": [0, MAXSIZE, [{"elem": ["a", 1, 1]}, {"elem": ["b", 1, MAXSIZE]}]]},
     {"seq": [1, 1, [{"elem": ["a", 1, 1]}, {"elem": ["b", 0, 1]}, {"elem": ["a", 0, 1]}]]},
     {"seq": [2, 3, [{"seq": [1, 2, [{"elem": ["a", 1, 2]}]]}]]},
+    # valid schema on which generation died with AssertionError in reset_symmetrical_choices (repaired, fixed: C02)
+    {"choice": [1, 1, [{"choice": [0, 1, [{"elem": ["b", 1, 1]}, {"elem": ["c", 1, 1]}, {"elem": ["d", 1, 1]}]]},
+                       {"seq": [0, 1, [{"elem": ["a", 1, 1]}, {"elem": ["a", 1, 1]}, {"elem": ["d", 1, 1]}]]}]]},
 ]
 
 
@@ -70,11 +73,16 @@ def stage_gen(stage):
                 sites = G.real_xsd_sites(G.particle_xsd(p))
             except Exception:  # noqa: BLE001
                 continue
-            if stage != "calc":
-                # feed each later stage with what the real earlier stages produce
-                sites = G.real_stage(sites, "calc")
-            if stage == "merge":
-                sites = G.real_stage(sites, "effective")
+            try:
+                if stage != "calc":
+                    # feed each later stage with what the real earlier stages produce
+                    sites = G.real_stage(sites, "calc")
+                if stage == "merge":
+                    sites = G.real_stage(sites, "effective")
+            except Exception:  # noqa: BLE001
+                # an earlier real stage raised: that case belongs to the op of that stage (which
+                # compares the exception with the model), it cannot be fed to a later one
+                continue
             yield {"sites": sites}
 
     return gen
